@@ -754,4 +754,246 @@ theorem preinv_mod_1_eq (u : List Nat) (d : Nat) (hu : Limbs u) (h1 : B / 2 ≤ 
       ← valMS_mod]
 
 
+/-! ### mpn_divrem_1 -/
+
+/-- what a one-limb division routine working most-significant-first must deliver -/
+def DivSpec (ms frac : List Nat) (d : Nat) (res : List Nat × Nat) : Prop :=
+  valMS 0 (ms ++ frac) = valMS 0 res.1 * d + res.2 ∧ res.2 < d ∧ Limbs res.1 ∧
+    res.1.length = ms.length + frac.length
+
+theorem valMS_zero_cons (qs : List Nat) : valMS 0 (0 :: qs) = valMS 0 qs := by
+  rw [valMS_cons, Nat.zero_mul]
+
+theorem divrem1Norm_spec (ms : List Nat) (k : Nat) (d : Nat) (hms : Limbs ms) (h1 : B / 2 ≤ d) (h2 : d < B) :
+    DivSpec ms (List.replicate k 0) d (divrem1Norm ms (List.replicate k 0) d) := by
+  have hd0 : 0 < d := by simp only [B_eq] at h1; omega
+  have hfr := Limbs_replicate_zero k
+  generalize List.replicate k 0 = frac at *
+  -- both loops are the plain loop
+  have hloop : ∀ (qh : List Nat) (r : Nat) (ms' : List Nat), r < d → Limbs ms' →
+      (if BELOW_THRESHOLD (ms'.length + frac.length) Gen.DIVREM_1_NORM_THRESHOLD then
+        (qh ++ (plainLoop d (ms' ++ frac) r).1, (plainLoop d (ms' ++ frac) r).2)
+      else (qh ++ (preinvLoop d (invert_limb d) (ms' ++ frac) r).1, (preinvLoop d (invert_limb d) (ms' ++ frac) r).2))
+      = (qh ++ (plainLoop d (ms' ++ frac) r).1, (plainLoop d (ms' ++ frac) r).2) := by
+    intro qh r ms' hr hl
+    split
+    · rfl
+    · rw [preinvLoop_eq d h1 h2 _ _ hr (Limbs_append.mpr ⟨hl, hfr⟩)]
+  unfold divrem1Norm DivSpec
+  cases ms with
+  | nil =>
+    simp only
+    have := hloop [] 0 [] hd0 Limbs_nil
+    simp only [List.nil_append, List.length_nil] at this ⊢
+    rw [this]
+    obtain ⟨e, a, b, c⟩ := plainLoop_spec d frac 0 0 hd0 hfr
+    simp only [Nat.zero_mul, Nat.zero_add] at e
+    exact ⟨e, a, b, by rw [c]; omega⟩
+  | cons top rest =>
+    have ⟨htop, hrest⟩ := Limbs_cons.mp hms
+    obtain ⟨_, e2, e3⟩ := norm_first top d htop h1 h2
+    have hr : top % d < d := Nat.mod_lt _ hd0
+    simp only [e2]
+    have := hloop [if top ≥ d then 1 else 0] (top % d) rest hr hrest
+    rw [this]
+    obtain ⟨e, a, b, c⟩ := plainLoop_spec d (rest ++ frac) (top % d) (if top ≥ d then 1 else 0) hr
+      (Limbs_append.mpr ⟨hrest, hfr⟩)
+    rw [e3] at e
+    simp only [List.cons_append, List.nil_append]
+    refine ⟨?_, a, Limbs_cons.mpr ⟨?_, b⟩, ?_⟩
+    · rw [valMS_cons, valMS_cons, Nat.zero_mul, Nat.zero_add, Nat.zero_add]; exact e
+    · have := B_pos; split <;> omega
+    · rw [List.length_cons, c, List.length_append, List.length_cons]; omega
+
+theorem or_shift_sum (r n1 s : Nat) (hn1 : n1 < B) (hs : s ≤ 64) :
+    r * 2 ^ s ||| n1 >>> (64 - s) = r * 2 ^ s + n1 / 2 ^ (64 - s) := by
+  rw [Nat.shiftRight_eq_div_pow, ← Nat.shiftLeft_eq]
+  exact (Nat.shiftLeft_add_eq_or_of_lt (limb_hi_lt n1 s hn1 hs) _).symm
+
+theorem shifted_start_lt (r d n1 s : Nat) (hr : r < d) (hn1 : n1 < B) (hs : s ≤ 64) :
+    r * 2 ^ s + n1 / 2 ^ (64 - s) < d * 2 ^ s := by
+  have := limb_hi_lt n1 s hn1 hs
+  have : (r + 1) * 2 ^ s ≤ d * 2 ^ s := Nat.mul_le_mul_right _ hr
+  have : (r + 1) * 2 ^ s = r * 2 ^ s + 2 ^ s := by ring
+  omega
+
+theorem shifted_start_val (r n1 s : Nat) (hs : s ≤ 64) :
+    (r * 2 ^ s + n1 / 2 ^ (64 - s)) * 2 ^ (64 - s) + n1 % 2 ^ (64 - s) = r * B + n1 := by
+  have h := Nat.div_add_mod n1 (2 ^ (64 - s))
+  rw [B_split s hs]
+  generalize n1 / 2 ^ (64 - s) = a at *
+  generalize n1 % 2 ^ (64 - s) = b at *
+  generalize 2 ^ (64 - s) = T at *
+  rw [← h]; ring
+
+/-- the preinv branch of divrem_1's unnormalised path, after the skip step -/
+theorem unnorm_preinv_spec (r : Nat) (ms : List Nat) (k d : Nat) (hr : r < d) (hms : Limbs ms)
+    (hd0 : 0 < d) (hd : d < B / 2) :
+    let s := count_leading_zeros d
+    let d' := (d <<< s) % B
+    let r' := (r <<< s) % B
+    let dinv := invert_limb d'
+    let p1 := unnormFeed d' dinv s ms r'
+    let p2 := preinvLoop d' dinv (List.replicate k 0) p1.2
+    valMS r (ms ++ List.replicate k 0) = valMS 0 (p1.1 ++ p2.1) * d + p2.2 >>> s ∧ p2.2 >>> s < d ∧
+      Limbs (p1.1 ++ p2.1) ∧ (p1.1 ++ p2.1).length = ms.length + k := by
+  intro s d' r' dinv p1 p2
+  have hdB : d < B := by simp only [B_eq] at *; omega
+  obtain ⟨hs, c1, c2⟩ := clz_spec d (by omega) hdB
+  have hd' : d' = d * 2 ^ s := by show (d <<< s) % B = _; rw [Nat.shiftLeft_eq, Nat.mod_eq_of_lt c2]
+  have hrs : r * 2 ^ s < d * 2 ^ s := Nat.mul_lt_mul_of_pos_right hr (by positivity)
+  have hr' : r' = r * 2 ^ s := by
+    show (r <<< s) % B = _; rw [Nat.shiftLeft_eq, Nat.mod_eq_of_lt (Nat.lt_trans hrs c2)]
+  have hs1 : 1 ≤ s := by
+    rcases Nat.eq_zero_or_pos s with h | h
+    · have : d * 2 ^ s = d := by rw [h]; simp
+      rw [this] at c1; omega
+    · exact h
+  have hfr := Limbs_replicate_zero k
+  -- p1 is a plain loop over the shifted stream
+  obtain ⟨str, r0, hp1, hr0, hstr, hlen, hv⟩ : ∃ (str : List Nat) (r0 : Nat), p1 = plainLoop d' str r0 ∧ r0 < d' ∧ Limbs str ∧
+      str.length = ms.length ∧ ∀ A, valMS (A * d' + r0) str = (A * d * B ^ ms.length + valMS r ms) * 2 ^ s := by
+    cases ms with
+    | nil =>
+      refine ⟨[], r', rfl, by rw [hr', hd']; exact hrs, Limbs_nil, rfl, ?_⟩
+      intro A; rw [hd', hr']; simp only [valMS, List.length_nil, pow_zero]; ring
+    | cons n1 rest =>
+      have ⟨hn1, hrest⟩ := Limbs_cons.mp hms
+      have hor : r' ||| n1 >>> (64 - s) = r * 2 ^ s + n1 / 2 ^ (64 - s) := by
+        rw [hr']; exact or_shift_sum r n1 s hn1 (by omega)
+      have hlt := shifted_start_lt r d n1 s hr hn1 (by omega)
+      refine ⟨shl s n1 rest, r * 2 ^ s + n1 / 2 ^ (64 - s), ?_, by rw [hd']; exact hlt,
+        shl_Limbs s (by omega) rest n1 hrest, by rw [shl_length]; rfl, ?_⟩
+      · show unnormLoop d' dinv s n1 rest (r' ||| n1 >>> (64 - s)) = _
+        rw [hor, unnormLoop_eq _ _ s hs1 hs rest _ _ hrest]
+        show preinvLoop d' (invert_limb d') _ _ = _
+        rw [hd'] at *
+        exact preinvLoop_eq _ c1 c2 _ _ hlt (shl_Limbs s (by omega) rest n1 hrest)
+      · intro A
+        rw [shl_val s (by omega), hd']
+        have : (A * (d * 2 ^ s) + (r * 2 ^ s + n1 / 2 ^ (64 - s))) * 2 ^ (64 - s) + n1 % 2 ^ (64 - s)
+            = A * d * B + (r * B + n1) := by
+          rw [← shifted_start_val r n1 s (by omega), B_split s (by omega)]; ring
+        rw [this, valMS_eq, valMS_cons, valMS_eq (r * B + n1), List.length_cons, pow_succ]; ring
+  -- p2 continues the same loop over the fraction limbs
+  have hp2 : p2 = plainLoop d' (List.replicate k 0) (plainLoop d' str r0).2 := by
+    show preinvLoop d' (invert_limb d') _ p1.2 = _
+    rw [hp1]
+    have := (plainLoop_spec d' str r0 0 hr0 hstr).2.1
+    rw [hd'] at *
+    exact preinvLoop_eq _ c1 c2 _ _ this hfr
+  have happ := plainLoop_append d' str (List.replicate k 0) r0
+  obtain ⟨e, a, b, c⟩ := plainLoop_spec d' (str ++ List.replicate k 0) r0 0 hr0 (Limbs_append.mpr ⟨hstr, hfr⟩)
+  rw [happ] at e a b c
+  rw [hp1, hp2]
+  simp only at e a b c
+  generalize (plainLoop d' str r0).1 = q1 at *
+  generalize (plainLoop d' (List.replicate k 0) (plainLoop d' str r0).2).1 = q2 at *
+  generalize (plainLoop d' (List.replicate k 0) (plainLoop d' str r0).2).2 = rf at *
+  rw [valMS_append, hv 0, valMS_replicate_zero] at e
+  have e' : (valMS r ms * B ^ k) * 2 ^ s = valMS 0 (q1 ++ q2) * (d * 2 ^ s) + rf := by
+    rw [← hd', ← e]; ring
+  rw [hd'] at a
+  obtain ⟨u1, u2, _⟩ := unshift_div _ _ _ _ _ e' a
+  rw [Nat.shiftRight_eq_div_pow, valMS_append, valMS_replicate_zero]
+  refine ⟨u1, u2, b, ?_⟩
+  rw [c, List.length_append, List.length_replicate, hlen]
+
+theorem divrem1Unnorm_spec (ms : List Nat) (k : Nat) (d : Nat) (hms : Limbs ms) (hd0 : 0 < d) (hd : d < B / 2) :
+    DivSpec ms (List.replicate k 0) d (divrem1Unnorm ms (List.replicate k 0) d) := by
+  have hfr := Limbs_replicate_zero k
+  -- the skip step
+  obtain ⟨qh, r, ms', hsk, hqh, hr, hms', hval, hlen⟩ : ∃ qh r ms',
+      divrem1Skip ms d = (qh, r, ms') ∧
+      (qh = [] ∨ qh = [0]) ∧ r < d ∧ Limbs ms' ∧
+      (∀ l, valMS 0 (ms ++ l) = valMS r (ms' ++ l)) ∧ qh.length + ms'.length = ms.length := by
+    cases ms with
+    | nil => exact ⟨[], 0, [], rfl, Or.inl rfl, hd0, Limbs_nil, fun _ => rfl, rfl⟩
+    | cons n1 rest =>
+      have ⟨hn1, hrest⟩ := Limbs_cons.mp hms
+      by_cases h : n1 < d
+      · refine ⟨[0], n1, rest, by simp [divrem1Skip, h], Or.inr rfl, h, hrest, ?_, by simp; omega⟩
+        intro l; rw [List.cons_append, valMS_cons, Nat.zero_mul, Nat.zero_add]
+      · exact ⟨[], 0, n1 :: rest, by simp [divrem1Skip, h], Or.inl rfl, hd0, hms, fun _ => rfl, by simp⟩
+  have hq0 : ∀ qs, valMS 0 (qh ++ qs) = valMS 0 qs := by
+    intro qs; rcases hqh with rfl | rfl
+    · rfl
+    · exact valMS_zero_cons qs
+  have hqL : ∀ qs, Limbs qs → Limbs (qh ++ qs) := by
+    intro qs hq; rcases hqh with rfl | rfl
+    · exact hq
+    · exact Limbs_cons.mpr ⟨B_pos, hq⟩
+  unfold divrem1Unnorm DivSpec
+  rw [hsk]
+  simp only [List.length_replicate]
+  split
+  · -- n = 0
+    rename_i hn
+    have hm0 : ms' = [] := List.eq_nil_of_length_eq_zero (by omega)
+    have hk0 : k = 0 := by omega
+    subst hm0 hk0
+    have := hval []
+    simp only [List.append_nil, List.replicate_zero, valMS] at this ⊢
+    refine ⟨?_, hr, ?_, by simpa using hlen⟩
+    · rw [this]; rcases hqh with rfl | rfl <;> simp [valMS]
+    · have := hqL [] Limbs_nil; simpa using this
+  · split
+    · -- plain loop
+      obtain ⟨e, a, b, c⟩ := plainLoop_spec d (ms' ++ List.replicate k 0) r 0 hr (Limbs_append.mpr ⟨hms', hfr⟩)
+      rw [Nat.zero_mul, Nat.zero_add] at e
+      simp only
+      refine ⟨by rw [hval, hq0]; exact e, a, hqL _ b, ?_⟩
+      rw [List.length_append, c, List.length_append, List.length_replicate]; omega
+    · -- preinv on the normalised divisor
+      obtain ⟨e, a, b, c⟩ := unnorm_preinv_spec r ms' k d hr hms' hd0 hd
+      simp only at e a b c ⊢
+      refine ⟨?_, a, ?_, ?_⟩
+      · rw [hval, List.append_assoc, hq0]; exact e
+      · rw [List.append_assoc]; exact hqL _ b
+      · rw [List.append_assoc, List.length_append, c]; omega
+
+/-- result contract of mpn_divrem_1, least-significant-first -/
+def Divrem1Spec (qxn : Nat) (u : List Nat) (d : Nat) (res : List Nat × Nat) : Prop :=
+  val res.1 * d + res.2 = val u * B ^ qxn ∧ res.2 < d ∧ Limbs res.1 ∧ res.1.length = u.length + qxn
+
+theorem DivSpec_to_val (qxn : Nat) (u : List Nat) (d : Nat) (res : List Nat × Nat)
+    (h : DivSpec u.reverse (List.replicate qxn 0) d res) : Divrem1Spec qxn u d (res.1.reverse, res.2) := by
+  obtain ⟨e, a, b, c⟩ := h
+  refine ⟨?_, a, Limbs_reverse b, ?_⟩
+  · simp only
+    rw [val_eq_valMS, List.reverse_reverse, ← e, valMS_append, valMS_replicate_zero, ← val_eq_valMS]
+  · simp only [List.length_reverse, c, List.length_replicate]
+
+theorem divrem_euclidean_qr_1_spec (u : List Nat) (d : Nat) (hu : Limbs u) (hd0 : 0 < d) (hdB : d < B) :
+    Divrem1Spec 0 u d (divrem_euclidean_qr_1 u d) := by
+  rw [divrem_euclidean_qr_1_eq u d hu (by omega) hdB]
+  obtain ⟨e, a, b, c⟩ := plainLoop_spec d u.reverse 0 0 hd0 (Limbs_reverse hu)
+  rw [Nat.zero_mul, Nat.zero_add] at e
+  have := DivSpec_to_val 0 u d (plainLoop d u.reverse 0) ⟨by simpa using e, a, b, by simpa using c⟩
+  exact this
+
+/-- mpn_divrem_1 on every path except the Hensel one (qxn = 0, small d, un ≥ DIVREM_EUCLID_HENSEL_THRESHOLD) -/
+theorem divrem_1_spec_nohensel (qxn : Nat) (u : List Nat) (d : Nat) (hu : Limbs u) (hd0 : 0 < d) (hdB : d < B)
+    (hnh : (decide (qxn = 0) && (decide (d ≤ HIGHBIT / 2 + 1) &&
+      ABOVE_THRESHOLD u.length Gen.DIVREM_EUCLID_HENSEL_THRESHOLD)) = false) :
+    Divrem1Spec qxn u d (divrem_1 qxn u d) := by
+  unfold divrem_1
+  simp only [hnh, Bool.false_eq_true, if_false]
+  split
+  · rename_i h0
+    have hu0 : u = [] := List.eq_nil_of_length_eq_zero (by omega)
+    have hq0 : qxn = 0 := by omega
+    subst hu0 hq0
+    exact ⟨by simp, hd0, Limbs_nil, rfl⟩
+  · split
+    · rename_i hq; subst hq
+      exact divrem_euclidean_qr_1_spec u d hu hd0 hdB
+    · rw [highbit_test d hdB]
+      by_cases hn : B / 2 ≤ d
+      · simp only [hn, decide_true, if_true]
+        exact DivSpec_to_val qxn u d _ (divrem1Norm_spec u.reverse qxn d (Limbs_reverse hu) hn hdB)
+      · simp only [hn, decide_false, Bool.false_eq_true, if_false]
+        exact DivSpec_to_val qxn u d _ (divrem1Unnorm_spec u.reverse qxn d (Limbs_reverse hu) hd0 (by omega))
+
+
 end Mpir.DivWord
